@@ -204,6 +204,30 @@ pub fn cmd_defrag_fuzz(args: &[String]) -> i32 {
     0
 }
 
+/// defrag-pause <ms> <out.ndjson>: a message in two records with a pause of <ms> of wall-clock time between the two calls (and a second
+/// parser fed the same records back to back): what a parser answers does not depend on when it is asked
+pub fn cmd_defrag_pause(args: &[String]) -> i32 {
+    let ms: u64 = args[0].parse().unwrap_or(0);
+    let mut out = BufWriter::new(std::fs::File::create(&args[1]).expect("create"));
+    let first: [u8; 7] = [20, 0, 0, 8, 1, 2, 3];
+    let second: [u8; 5] = [4, 5, 6, 7, 8];
+    let raw = |d: &'static [u8]| TlsRawRecord { hdr: TlsRecordHeader { record_type: TlsRecordType(22), version: TlsVersion(0x0303), len: d.len() as u16 }, data: d };
+    static FIRST: [u8; 7] = [20, 0, 0, 8, 1, 2, 3];
+    static SECOND: [u8; 5] = [4, 5, 6, 7, 8];
+    let _ = (first, second);
+    for (label, pause) in [("back_to_back", 0u64), ("paused", ms)] {
+        let mut p = TlsRecordsParser::default();
+        let r1 = match p.parse_record(raw(&FIRST)) { Ok((_, m)) => format!("ok:{}", m.len()), Err(tls_parser::nom::Err::Incomplete(_)) => "inc".to_string(), Err(e) => format!("err:{:?}", e) };
+        let in1 = p.defrag_in_progress();
+        std::thread::sleep(std::time::Duration::from_millis(pause));
+        let in1b = p.defrag_in_progress();
+        let r2 = match p.parse_record(raw(&SECOND)) { Ok((rem, m)) => format!("ok:{}:{}:{:?}", m.len(), rem.len(), m), Err(tls_parser::nom::Err::Incomplete(_)) => "inc".to_string(), Err(e) => format!("err:{:?}", e) };
+        writeln!(out, "{}", json!({"run": label, "first": r1, "in_progress_after_first": in1, "in_progress_after_pause": in1b, "second": r2, "in_progress_after_second": p.defrag_in_progress()})).unwrap();
+    }
+    out.flush().unwrap();
+    0
+}
+
 /// defrag-stream <out.ndjson>: one real-size stream.  A handshake header declaring 2^24-1 bytes,
 /// then 16640-byte records until the 10 MiB limit refuses, then the exact boundary, a foreign type,
 /// a nocopy call; one compact event per call for the length-only trace specification.
